@@ -1,11 +1,12 @@
 ----------------------------- MODULE AdmissionGen -----------------------------
 (* scenario grid for Admission: rate scenarios (who sends how) and size scenarios *)
 EXTENDS Naturals, Sequences, TLC, Json
-CONSTANTS Rates, Bursts, Behaviours, Sizes, LenModes, Routes, Kinds
+CONSTANTS Rates, Bursts, Behaviours, Sizes, LenModes, Routes, Kinds,
+          Globals   \* global requests-per-minute settings explored next to the per-IP one (0 = no global limit)
 VARIABLE scn
 Init == \/ /\ "rate" \in Kinds
-           /\ \E r \in Rates : \E b \in Bursts : \E bh \in Behaviours :
-                 scn = [kind |-> "rate", rate |-> r, burst |-> b, behaviour |-> bh]
+           /\ \E r \in Rates : \E b \in Bursts : \E bh \in Behaviours : \E g \in Globals :
+                 scn = [kind |-> "rate", rate |-> r, burst |-> b, behaviour |-> bh, global |-> g]
         \/ /\ "bucket" \in Kinds
            /\ \E r \in Rates : \E b \in Bursts : \E k \in 1..3 :
                  scn = [kind |-> "bucket", rate |-> r, burst |-> b, rolls |-> k]
